@@ -118,3 +118,49 @@ func VerifHarness_C10_tenants() {
 		rt.Assert(bp.batcher.currentMetadataCardinality() <= limit, "C10.cardinality_counter_within_limit")
 	}
 }
+
+// VerifHarness_C10_refused_retry: a SEQUENCE (each request after the previous one returned): the limit is filled
+// with `limit` distinct admitted combinations, then a further, different combination X is sent TWICE, then an
+// admitted combination once more. Both X requests are refused with a permanent error (the refusal of the first
+// must leave nothing behind that lets the second slip through or hang), nothing of X is ever exported, the
+// admitted combination is still served, the counter stays within the limit, and Shutdown returns.
+func VerifHarness_C10_refused_retry() {
+	limit := rt.Int("limit")
+	rt.Assume(limit >= 1)
+	rt.Assume(limit <= 2)
+	early := rt.Bool("early")
+	next := &verifNext{}
+	bp := verifNewProcessor(next, &verifTracer{}, 1, 0, 200*time.Millisecond, early, []string{"Tenant"}, limit, 0)
+	if bp == nil {
+		return
+	}
+	_ = bp.Start(context.Background(), nil)
+	mk := func(v string) context.Context {
+		return client.NewContext(context.Background(), client.Info{Metadata: client.NewMetadata(map[string][]string{"tenant": {v}})})
+	}
+	names := []string{"a", "b"}
+	for k := 0; k < limit; k++ {
+		err := bp.ConsumeTraces(mk(names[k]), verifTraces(int64(100*(k+1)), 1))
+		rt.Assert(err == nil, "C10.refused_retry.within_limit_admitted")
+	}
+	x := rt.String("x", 1)
+	for k := 0; k < limit; k++ {
+		rt.Assume(x != names[k])
+	}
+	for try := 0; try < 2; try++ {
+		err := bp.ConsumeTraces(mk(x), verifTraces(int64(900+try), 1))
+		rt.Assert(err != nil && consumererror.IsPermanent(err), "C10.refused_retry.over_limit_refused_every_time")
+	}
+	err := bp.ConsumeTraces(mk(names[0]), verifTraces(500, 1))
+	rt.Assert(err == nil, "C10.refused_retry.admitted_still_served")
+	_ = bp.Shutdown(context.Background())
+	seen := map[int64]int{}
+	for _, e := range next.exports {
+		for _, id := range e.ids {
+			seen[id]++
+		}
+	}
+	rt.Assert(seen[900] == 0 && seen[901] == 0, "C10.refused_retry.refused_never_exported")
+	rt.Assert(seen[500] == 1 && seen[100] == 1, "C10.refused_retry.admitted_exported_once")
+	rt.Assert(bp.batcher.currentMetadataCardinality() <= limit, "C10.refused_retry.counter_within_limit")
+}
